@@ -13,7 +13,7 @@ Model of transfer persistence (property C17):
 * `TransferManager.add` / `remove` split at their suspension points (the delivery of
   `TransferAddedEvent`, the state listeners of the abort transition, the delivery of
   `TransferRemovedEvent`), `write_cache()` possible at every one of them, process end at any
-  point                                               transfer/manager.py:319-377 → `Op` / `step` / `run`
+  point                                               transfer/manager.py:323-383 → `Op` / `step` / `run`
 * `abort()` of the state classes                      transfer/state.py:186-392   → `abortEffect` (generated table)
 
 The hash (`hashlib.sha256(...).hexdigest()`) is a *parameter* `H : ByteArray → K` of `write`; theorems
@@ -291,8 +291,8 @@ def abortEffect (now : Nat) (t : Transfer) : Option Transfer :=
 
 /-! ### histories: operations of the manager split at their suspension points, cache writes anywhere
 
-`add()` (manager.py:333-344) appends the transfer and then awaits the listeners of `TransferAddedEvent`;
-`remove()` (manager.py:350-377) awaits `abort()` — whose transition awaits the transfer's state
+`add()` (manager.py:323-348) appends the transfer and then awaits the listeners of `TransferAddedEvent`;
+`remove()` (manager.py:350-383) awaits `abort()` — whose transition awaits the transfer's state
 listeners while the transfer is still listed — then detaches the transfer and awaits the listeners of
 `TransferRemovedEvent`. A listener may suspend (or write the cache itself), so `write_cache()` —
 synchronous, manager.py:173-175 — can run at each of these points, and the process can end at each
@@ -364,7 +364,7 @@ def Sys.listed (s : Sys K) (id : Ident) : Bool := s.mgr.transfers.any (fun q => 
 def Sys.removing (s : Sys K) (id : Ident) : Bool :=
   s.pending.any (fun p => p.id = id ∧ p.phase ≠ .adding)
 
-/-- `add()` (manager.py:333-344). An existing equal transfer is returned at once (no event, no
+/-- `add()` (manager.py:323-348). An existing equal transfer is returned at once (no event, no
 suspension). Otherwise: listener attached, appended, cycle requested, `TransferAddedEvent` delivered;
 `gated` = a listener of that event suspends. -/
 def doAdd (s : Sys K) (t : Transfer) (gated : Bool) : Sys K × Out :=
@@ -390,7 +390,7 @@ def detach (s : Sys K) (id : Ident) (tainted : Bool) : Sys K :=
            there := s.there.filter (· ≠ id),
            gone := if tainted then s.gone.filter (· ≠ id) else id :: s.gone.filter (· ≠ id) }
 
-/-- `remove()` (manager.py:350-377) up to its first suspension. `gated = false`: no listener suspends,
+/-- `remove()` (manager.py:350-383) up to its first suspension. `gated = false`: no listener suspends,
 the call runs to its end. -/
 def doRmCall (s : Sys K) (id : Ident) (now : Nat) (gated : Bool) : Sys K × Out :=
   match s.mgr.transfers.find? (fun q => ident q = id) with
@@ -414,7 +414,9 @@ def doRmCall (s : Sys K) (id : Ident) (now : Nat) (gated : Bool) : Sys K × Out 
         if gated then ({ s with pending := s.pending ++ [{ id := id, phase := .announcing, tainted := false }] }, .announcing)
         else ({ s with mgr := { s.mgr with cycleRequested := true } }, .done)
 
-/-- the suspended listener of a removal in progress resumes -/
+/-- the suspended listener of a removal in progress resumes. After the delivery of `TransferRemovedEvent`
+`remove()` may still withdraw the user's tracking reason (manager.py:376-381, a request to the server:
+it suspends, the list does not change) before it requests a cycle and returns. -/
 def doRmStep (s : Sys K) (id : Ident) : Sys K × Out :=
   match s.pending.find? (fun p => p.id = id ∧ p.phase ≠ .adding) with
   | none => (s, .noPending)
